@@ -151,9 +151,11 @@ fn build_views(case: &Case, n: usize, alg: u32, key_seed: u64) -> Vec<View> {
                     };
                     if deviates(&w, j) {
                         let salt = if *who == Who::AllSame { 0 } else { j as u32 + 1 };
-                        v.alg = match rnd % 3 {
+                        v.alg = match rnd % 4 {
                             0 => alg ^ 1,
                             1 => alg.wrapping_add(1 + salt),
+                            // a single flipped bit at any of the 32 positions
+                            2 => alg ^ (1u32 << (((rnd >> 8) + salt) % 32)),
                             _ => rnd ^ salt,
                         };
                         if v.alg == alg {
@@ -223,6 +225,10 @@ impl<'a> VdafVisitor for P3Run<'a> {
                 return;
             }
         };
+        let decode_true_role = case.plan.iter().any(|d| matches!(d, Dev::AggId { to, .. } if (to >> 3) & 1 == 1));
+        if decode_true_role {
+            obs.label("agg-id:share-decoded-under-true-role");
+        }
         let attempt = |key_seed: u64| -> (Attempt, Expect) {
             let views = build_views(case, n, cfg.alg_id, key_seed);
             let exp = expectation(&views, &case.ctx.0, &nonce, cfg.alg_id, !cfg.inst.has_joint_rand());
@@ -238,8 +244,11 @@ impl<'a> VdafVisitor for P3Run<'a> {
             let mut shares = vec![];
             for (j, v) in views.iter().enumerate() {
                 // aggregator j receives input share j, and processes it as id v.id
+                // (the share is decoded either under the same wrong identifier, or under the true
+                // position j and only verify_init runs under the wrong one)
                 let a = AggInput { agg_id: v.id, verify_key: v.key, ctx: v.ctx.clone(), nonce: v.nonce, public_share: sh.public_share.clone(), input_share: sh.input_shares[j].clone() };
-                match init_wire(&insts[j], &(), &a) {
+                let decode_id = if decode_true_role { j } else { v.id };
+                match init_wire_as(&insts[j], &(), &a, decode_id) {
                     Ok(o) => {
                         states.push(o.state);
                         shares.push(o.verifier_share);
